@@ -211,7 +211,8 @@ brute_t brute_force(const problem_t& p, const string_t& id)
                     x2 += values(i) * values(i);
                 }
                 const auto det = x2 * x0 - x1 * x1;
-                if (given.size() < 2 || !(std::fabs(det) > 1e-9 * std::max(1.0, x2 * x0)))
+                // (relative to the feature's own scale: a feature stored at 1e-12 is as good as one stored at 1)
+                if (given.size() < 2 || !(x2 * x0 > 0.0) || !(std::fabs(det) > 1e-9 * x2 * x0))
                 {
                     continue;
                 }
